@@ -823,6 +823,38 @@ def run_xsheet(ctx):
                 {'kind': 'xsheet'}, True, note=text)
 
 
+# -- every argument count up to the 255 that Excel accepts --------------------------
+COUNTS = (1, 2, 3, 29, 30, 31, 100, 253, 254, 255)
+
+
+def run_counts(ctx):
+    for fn, neutral, deciding in (('AND', 'TRUE', 'FALSE'),
+                                  ('OR', 'FALSE', 'TRUE')):
+        for n in COUNTS:
+            for where in ('none', 'first', 'last', 'cell-last'):
+                args = [neutral] * n
+                cells = {SHEET + 'A1': deciding == 'TRUE'}
+                if where == 'first':
+                    args[0] = deciding
+                elif where == 'last':
+                    args[-1] = deciding
+                elif where == 'cell-last':
+                    args[-1] = 'A1'
+                decided = where != 'none'
+                value = (deciding == 'TRUE') if decided else \
+                    (neutral == 'TRUE')
+                text = '=%s(%s)' % (fn, ','.join(args))
+                for wrap, want in (('%s', 'bool:%s' % value),
+                                   ('IF(%s,"y","n")',
+                                    'text:%s' % ('y' if value else 'n'))):
+                    got = lib.eval_formula('=' + wrap % text[1:], cells, AT)
+                    ctx.check('C10/COUNTS/%s/n=%d/%s/%s' % (
+                        fn, n, where, 'if' if 'IF' in wrap else 'plain'),
+                        got, want, ['family:argument-counts', 'fn:' + fn,
+                                    'spell:n=%d' % n], {'kind': 'counts'},
+                        True, note='%s(...) with %d arguments' % (fn, n))
+
+
 # -- the first call of a function in a process --------------------------------
 # Laziness must not depend on how many arguments the FIRST call of IF / AND /
 # OR in the process happened to have.  Each sequence runs in a fresh
@@ -911,6 +943,7 @@ def plan(tier):
     shards.append({'fam': 'ABSENT'})
     shards.append({'fam': 'SEQ'})
     shards.append({'fam': 'XSHEET'})
+    shards.append({'fam': 'COUNTS'})
     ncall = len(call_cases(tier))
     for lo in range(0, ncall, 500):
         shards.append({'fam': 'CALL', 'tier': tier, 'lo': lo,
@@ -1033,6 +1066,8 @@ def run_shard(shard, ctx):
         name, args, env = forms[shard['lo']]
         ctx.sample({'family': 'ANDOR', 'formula': '=' + lazy.render(
             ('and', [S(i, a) for i, a in enumerate(args)])), 'cells': env})
+    elif fam == 'COUNTS':
+        run_counts(ctx)
     elif fam == 'XSHEET':
         run_xsheet(ctx)
         ctx.sample({'family': 'XSHEET', 'formula': '=AND(Data!A1:A2,B1)',
@@ -1112,6 +1147,8 @@ def replay(inputs, ctx):
         run_seq(ctx)
     elif kind == 'xsheet':
         run_xsheet(ctx)
+    elif kind == 'counts':
+        run_counts(ctx)
     elif kind == 'firstcall':
         run_firstcall(ctx)
     elif kind == 'flip':
